@@ -50,10 +50,8 @@ def vmin (a b : Vec) : Vec := ⟨min a.x b.x, min a.y b.y, min a.z b.z⟩
 def vmax (a b : Vec) : Vec := ⟨max a.x b.x, max a.y b.y, max a.z b.z⟩
 def flipX (a : Vec) : Vec := ⟨-a.x, a.y, a.z⟩
 
-def run : P String := do
-  let sumup ← bool
-  let squeeze ← bool
-  let a ← agg
+/-- the scene part of a line: `F nf (rot vec)* S ne entry* K nk sens*` -/
+def scene : P (List E × List K) := do
   let _ ← tok -- "F"
   let nf ← nat
   let fs ← many nf (do let m ← rot; let b ← vec; pure (m, b))
@@ -63,9 +61,41 @@ def run : P String := do
   let _ ← tok -- "K"
   let nk ← nat
   let ks ← many nk sens
+  pure (es, ks)
+
+def fmtErr : Err → String
+  | .badUserInput => "err BadUserInput"
+  | .missingInput => "err MissingInput"
+
+def fmtSrcId : SrcId → String
+  | .sumup n => s!"U{n}"
+  | .src i => s!"S{i}"
+
+/-- `level2 <sumup> <squeeze> <agg> scene` (ndarray output) or
+`level2 df <sumup> <agg> scene` (output="dataframe": one `source path sensor pixel x y z` per row) -/
+def run : P String := do
+  let t ← tok
+  if t == "df" then
+    let sumup ← bool
+    let a ← agg
+    let (es, ks) ← scene
+    match dataframe flipX vmin vmax es ks sumup a with
+    | .error e => pure (fmtErr e)
+    | .ok df =>
+      if df.index.length != df.values.length then
+        pure s!"err LengthMismatch {df.index.length} {df.values.length}"
+      else
+        let rows := (dataframeRows df).map fun ((s, m, k, p), v) => s!"{fmtSrcId s} {m} {k} {p} {fmtV v}"
+        pure s!"ok df {rows.length} | {" ; ".intercalate rows}"
+  else
+  let sumup ← (match t.toNat? with
+    | some n => pure (n != 0)
+    | none => throw s!"not a flag: {t}")
+  let squeeze ← bool
+  let a ← agg
+  let (es, ks) ← scene
   match getBH flipX vmin vmax es ks sumup squeeze a with
-  | .error .badUserInput => pure "err BadUserInput"
-  | .error .missingInput => pure "err MissingInput"
+  | .error e => pure (fmtErr e)
   | .ok o =>
     let sh := " ".intercalate ((o.shape ++ [3]).map toString)
     let d := " ".intercalate (o.data.map fmtV)
